@@ -8,6 +8,7 @@ import (
 	"fmt"
 	"sort"
 	"strings"
+	"sync"
 
 	"github.com/synnaxlabs/cesium"
 	"github.com/synnaxlabs/x/errors"
@@ -172,6 +173,7 @@ type World struct {
 	sess     [2]*session
 	Poisoned string // set when a script step the model considers legal was refused
 	Reads    int
+	mu       sync.Mutex // guards the reference model when harness threads run concurrently (C09)
 }
 
 func New(cfg Config) (*World, error) {
@@ -224,6 +226,8 @@ func (w *World) Close() {
 }
 
 func (w *World) has(k cesium.ChannelKey) bool {
+	w.mu.Lock()
+	defer w.mu.Unlock()
 	for _, c := range w.Cfg.Channels {
 		if c == k {
 			return true
@@ -399,7 +403,9 @@ func (w *World) Apply(op string) (string, error) {
 			w.Poisoned = "open refused: " + err.Error()
 			return "refused:" + short(err), nil
 		}
+		w.mu.Lock()
 		w.sess[g] = &session{w: cw, chans: chans, start: start, next: p, first: p}
+		w.mu.Unlock()
 		return "ok", nil
 	case "write":
 		g, k := atoi(f[1]), atoi(f[2])
@@ -436,8 +442,10 @@ func (w *World) Apply(op string) (string, error) {
 		return "ok", nil
 	case "close":
 		g := atoi(f[1])
+		w.mu.Lock()
 		s := w.sess[g]
 		w.sess[g] = nil
+		w.mu.Unlock()
 		if err := s.w.Close(); err != nil {
 			w.Poisoned = "close failed: " + err.Error()
 			return "refused:" + short(err), nil
@@ -453,8 +461,10 @@ func (w *World) Apply(op string) (string, error) {
 				}
 			}
 		}
+		w.mu.Lock()
 		w.Cfg.Channels = append(append([]cesium.ChannelKey{}, w.Cfg.Channels...), k)
 		w.Ref[k] = map[int]bool{}
+		w.mu.Unlock()
 		return "ok", nil
 	case "rmch":
 		k := cesium.ChannelKey(atoi(f[1]))
@@ -462,6 +472,7 @@ func (w *World) Apply(op string) (string, error) {
 			w.Poisoned = "delete channel refused: " + err.Error()
 			return "refused:" + short(err), nil
 		}
+		w.mu.Lock()
 		var rest []cesium.ChannelKey
 		for _, c := range w.Cfg.Channels {
 			if c != k {
@@ -471,6 +482,7 @@ func (w *World) Apply(op string) (string, error) {
 		w.Cfg.Channels = rest
 		delete(w.Ref, k)
 		delete(w.Doms, k)
+		w.mu.Unlock()
 		return "ok", nil
 	case "rnch":
 		k := cesium.ChannelKey(atoi(f[1]))
@@ -500,6 +512,8 @@ func (w *World) dropSession(g int) {
 }
 
 func (w *World) commitModel(s *session) {
+	w.mu.Lock()
+	defer w.mu.Unlock()
 	if len(s.pending) == 0 {
 		return
 	}
@@ -533,6 +547,8 @@ func short(err error) string {
 
 // Expected returns the committed samples of channel k with a <= ts < b, ascending.
 func (w *World) Expected(k cesium.ChannelKey, a, b telem.TimeStamp) []string {
+	w.mu.Lock()
+	defer w.mu.Unlock()
 	var out []string
 	for i, t := range w.Grid {
 		if w.Ref[k][i] && a <= t && t < b {
@@ -540,6 +556,13 @@ func (w *World) Expected(k cesium.ChannelKey, a, b telem.TimeStamp) []string {
 		}
 	}
 	return out
+}
+
+// Keys returns a copy of the current channel list.
+func (w *World) Keys() []cesium.ChannelKey {
+	w.mu.Lock()
+	defer w.mu.Unlock()
+	return append([]cesium.ChannelKey{}, w.Cfg.Channels...)
 }
 
 // ModelCanon is the canonical model state.
@@ -803,6 +826,8 @@ func (w *World) content(k cesium.ChannelKey) ([]string, error) {
 }
 
 func (w *World) deleteModel(k cesium.ChannelKey, a, b telem.TimeStamp) {
+	w.mu.Lock()
+	defer w.mu.Unlock()
 	for i, t := range w.Grid {
 		if a <= t && t < b {
 			delete(w.Ref[k], i)
